@@ -132,11 +132,13 @@ Section Phase.
   Definition Jinv (S : list nat) (st : mstate) : Prop :=
     forall x, In x scope -> defd st x = true -> vars st x = None ->
               ~ In x globs /\ exists i, tbl x = Some i /\ In i S.
-  Definition Inv (S : list nat) (st : mstate) : Prop := refcount_inv U st /\ Jinv S st.
+  (* variables of other phases stay unassociated *)
+  Definition Out (st : mstate) : Prop := forall y, ~ In y scope -> vars st y = None.
+  Definition Inv (S : list nat) (st : mstate) : Prop := refcount_inv U st /\ Jinv S st /\ Out st.
   (* what is left of it at an early exit: persistent variables that are assigned are associated *)
   Definition Jg (st : mstate) : Prop :=
     forall x, In x globs -> defd st x = true -> vars st x <> None.
-  Definition Q (st : mstate) : Prop := refcount_inv U st /\ Jg st.
+  Definition Q (st : mstate) : Prop := refcount_inv U st /\ Jg st /\ Out st.
 
   Definition post (P : mstate -> Prop) (o : outcome) : Prop :=
     match o with
@@ -150,13 +152,13 @@ Section Phase.
 
   Lemma Inv_mono S S' st : incl S S' -> Inv S st -> Inv S' st.
   Proof.
-    intros Hi [I J]. split; [assumption|]. intros x Hx Dx Vx.
+    intros Hi (I & J & O). split; [assumption|]. split; [|assumption]. intros x Hx Dx Vx.
     destruct (J x Hx Dx Vx) as [Hg [i [Ht Hin]]]. split; [assumption|]. exists i. auto.
   Qed.
 
   Lemma Inv_Q S st : Inv S st -> Q st.
   Proof.
-    intros [I J]. split; [assumption|]. intros x Hx Dx Vx.
+    intros (I & J & O). split; [assumption|]. split; [|assumption]. intros x Hx Dx Vx.
     assert (Hs : In x scope) by (apply in_or_app; now left).
     destruct (J x Hs Dx Vx) as [Hg _]. contradiction.
   Qed.
@@ -166,23 +168,25 @@ Section Phase.
 
   Lemma usable_assoc S x st : Inv S st -> usable S x -> defd st x = true -> vars st x <> None.
   Proof.
-    intros [_ J] [Hs Hu] Dx Vx. destruct (J x Hs Dx Vx) as [Hg [i [Ht Hin]]].
+    intros (_ & J & _) [Hs Hu] Dx Vx. destruct (J x Hs Dx Vx) as [Hg [i [Ht Hin]]].
     destruct Hu as [Hu|Hu]; [contradiction|]. apply (Hu i Ht Hin).
   Qed.
 
   (* ---- single operations ---- *)
   Lemma op_alloc S x st : In x scope -> Inv S st -> post (Inv S) (run_op (OAllocCheck x) st).
   Proof.
-    intros Hx [I J]. cbn.
+    intros Hx (I & J & O). cbn.
     destruct (alloc_check_spec U x st ND (scopeU x Hx) I) as (st' & E & I' & Vx & Fr & D).
-    rewrite E. cbn. split; [assumption|]. intros y Hy Dy Vy.
-    destruct (Nat.eq_dec y x) as [->|Hne]; [contradiction|].
-    rewrite D, upd_other in Dy by assumption. rewrite Fr in Vy by assumption. auto.
+    rewrite E. cbn. split; [assumption|]. split.
+    - intros y Hy Dy Vy.
+      destruct (Nat.eq_dec y x) as [->|Hne]; [contradiction|].
+      rewrite D, upd_other in Dy by assumption. rewrite Fr in Vy by assumption. auto.
+    - intros y Hy. rewrite Fr; [auto|]. intros ->. contradiction.
   Qed.
 
   Lemma op_use S x st : usable S x -> Inv S st -> post (Inv S) (run_op (OUse x) st).
   Proof.
-    intros Hu HI. pose proof HI as [I J]. cbn. destruct Hu as [Hs Hu'].
+    intros Hu HI. pose proof HI as (I & J & O). cbn. destruct Hu as [Hs Hu'].
     destruct (use_spec U x st (scopeU x Hs) I) as [[D E]|[[D [V E]]|[D [V E]]]]; rewrite E; cbn.
     - split; [eexists; reflexivity | assumption].
     - exfalso. apply (usable_assoc S x st HI (conj Hs Hu') D V).
@@ -192,25 +196,29 @@ Section Phase.
   Lemma op_move S d s st :
     In d scope -> usable S s -> s <> d -> Inv S st -> post (Inv S) (run_op (OMove d s) st).
   Proof.
-    intros Hd Hu Hne HI. pose proof HI as [I J]. cbn. pose proof Hu as [Hs _].
+    intros Hd Hu Hne HI. pose proof HI as (I & J & O). cbn. pose proof Hu as [Hs _].
     destruct (move_spec U d s st ND (scopeU d Hd) (scopeU s Hs) Hne I)
       as [[D E]|[[D [V [st' E]]]|[D [V [st' (E & I' & Vd & Fr & D')]]]]]; rewrite E; cbn.
     - split; [eexists; reflexivity | assumption].
     - exfalso. apply (usable_assoc S s st HI Hu D V).
-    - split; [assumption|]. intros y Hy Dy Vy.
-      destruct (Nat.eq_dec y d) as [->|Hyd]; [contradiction|].
-      rewrite D', upd_other in Dy by assumption. rewrite Fr in Vy by assumption. auto.
+    - split; [assumption|]. split.
+      + intros y Hy Dy Vy.
+        destruct (Nat.eq_dec y d) as [->|Hyd]; [contradiction|].
+        rewrite D', upd_other in Dy by assumption. rewrite Fr in Vy by assumption. auto.
+      + intros y Hy. rewrite Fr; [auto|]. intros ->. contradiction.
   Qed.
 
   Lemma op_deinit_last S x st i :
     In x scope -> ~ In x globs -> tbl x = Some i -> In i S ->
     Inv S st -> post (Inv S) (run_op (ODeinit x) st).
   Proof.
-    intros Hx Hg Ht Hi [I J]. cbn.
+    intros Hx Hg Ht Hi (I & J & O). cbn.
     destruct (deinit_spec U x st ND (scopeU x Hx) I) as (st' & E & I' & Vx & Fr & D & _).
-    rewrite E. cbn. split; [assumption|]. intros y Hy Dy Vy.
-    destruct (Nat.eq_dec y x) as [->|Hne]; [split; eauto|].
-    rewrite D in Dy. rewrite Fr in Vy by assumption. auto.
+    rewrite E. cbn. split; [assumption|]. split.
+    - intros y Hy Dy Vy.
+      destruct (Nat.eq_dec y x) as [->|Hne]; [split; eauto|].
+      rewrite D in Dy. rewrite Fr in Vy by assumption. auto.
+    - intros y Hy. rewrite Fr; [auto|]. intros ->. contradiction.
   Qed.
 
   Lemma op_simple S o st :
